@@ -108,6 +108,7 @@ def _map_cases(fam):
 def make_map_contract(fam):
     class Map(Contract):
         """_get_scipy_parameters(*explicit) = documented scipy slots at the effective parameters"""
+        replay_uses_model = True
 
         def case_label(self, case):
             return "explicit=" + "".join("1" if case["pattern"][p] else "0" for p in fam_params(fam))
